@@ -56,8 +56,11 @@ META["C33"] = dict(
 )
 REGISTRY["C04"] = ("linktable", "run")
 REGISTRY["C06"] = ("linktable", "run")
-_LT_TECH = "TLC exhaustive model checking of LinkTable.tla; TLC-enumerated and simulated event histories replayed on two real transport controllers with fake transports/links; recorded traces validated by TLC (LinkTableMon.tla: observer + strict)"
-_LT_NOTE = "Events are delivered sequentially with a quiescent checkpoint after each (goroutine-state based); concurrent delivery from several goroutines is not exercised. Fake links/transports stand in for real ones; the quic address table (Transport.links) is covered by C03/C05 handshakes, not here."
+_LT_TECH = ("TLC exhaustive model checking of LinkTable.tla and QuicLinks.tla (safety + liveness of the report callbacks); TLC-enumerated and simulated event histories replayed on two real "
+            "transport controllers with fake transports/links (pinned and unpinned peer id) and, for the transport half, on a real quic (pconn) transport + controller over an in-memory packet "
+            "network (address histories, dial-and-close rounds, reconnect storms); recorded traces validated by TLC (LinkTableMon.tla observer + strict, QuicLinksMon.tla)")
+_LT_NOTE = ("Controller-level events are delivered sequentially with a quiescent checkpoint after each; the races between the established / lost reports of one link and of two links with the same uuid "
+            "are exercised statistically (150 dial-and-close rounds, 300 quick reconnects under lock contention), not by a scheduler gate.")
 META["C04"] = dict(technique=_LT_TECH, note=_LT_NOTE,
     text="LookupSound / NoSelfLink on the design (all histories over 7 link objects, 2 controllers) and on observed values: every value of every "
          "EstablishLinkWithPeer(S, D) request (S empty or either local identity, D any peer) names target D, comes from the controller of source S, "
@@ -185,4 +188,5 @@ META["C03"] = dict(technique=_LA_TECH, note="Certificate classes are symbolic (D
          "identity = the key that signed the binding. Real handshakes: honest pair, impostor, expected-peer mismatch, six forged client certificates; every reported link names an identity that took part.")
 META["C05"] = dict(technique=_LA_TECH, note="Liveness is checked with a 20 s bound after X finally owns the address; address take-over is silent (old owner's packets dropped).",
     text="LinkDial.tla: DialSound (done => link to X) and DialLive (<>[] owner=X => eventually done) hold for all interleavings of <= 3 owner changes with attempts/retries. "
-         "All owner histories over {X, impostor, nobody} up to 3 (4) phases against Controller.DialPeerAddr and Transport.DialPeer: success only with a link to X; satisfied once X is reachable.")
+         "All owner histories over {X, impostor, nobody} up to 3 (4) phases against Controller.DialPeerAddr (alias form of the address) and Transport.DialPeer: success only with a link to X; satisfied once X is reachable; "
+         "a second request while X is already linked is satisfied too; overlapping requests for X and Y at one address sharing the transport's dialer: only the request whose target answered succeeds.")
